@@ -135,6 +135,11 @@ def _mo(rng, k):
     return [rng.choice([0.3, 0.7, 1.0, 2.0, 0.5, 0.25]) for _ in range(k)]
 
 
+DEFAULTS = {"symmetric": True, "square_root": False, "sp": 1, "asymmetric_threshold": 0.0,
+            "left_error_function": "squared", "right_error_function": "absolute",
+            "relative_loss_function": "mean_absolute_error"}
+
+
 def _opts(rng, metric):
     o = {}
     names = METRICS[metric][2]
@@ -145,9 +150,12 @@ def _opts(rng, metric):
     if "sp" in names:
         o["sp"] = rng.choice([1, 1, 2, 3])
     if "asymmetric_threshold" in names:
-        o["asymmetric_threshold"] = rng.choice([0.0, 0.0, 0.5, -1.0, 0.25, 2.0])
+        o["asymmetric_threshold"] = rng.choice([0.0, 0.0, 0.5, 0.5, -1.0, 0.25, 2.0, -0.5])
         o["left_error_function"] = rng.choice(["squared", "absolute"])
         o["right_error_function"] = rng.choice(["squared", "absolute"])
+        if rng.random() < 0.5:
+            o["right_error_function"] = "absolute" if o["left_error_function"] == "squared" \
+                else "squared"
     if "relative_loss_function" in names:
         o["relative_loss_function"] = rng.choice(RL_FUNCS)
     return o
@@ -157,6 +165,9 @@ def _data(rng, metric, n, k, sp):
     """columns of y_true / y_pred / y_bench / y_train with planted structure."""
     extra = METRICS[metric][3]
     style = rng.choice(["mixed", "mixed", "mixed", "pos", "zeros", "tiny", "big", "const"])
+    if style == "tiny" and _short(metric) == "MAsym":
+        # the threshold switch is discontinuous: keep y_true - y_pred exact in float64
+        style = "mixed"
     yt, yp, yb, ytr = [], [], None, None
     for _ in range(k):
         t = _vals(rng, n, style)
@@ -192,8 +203,16 @@ def _func_case(rng, metric, force=None):
     univ = force.get("univ", rng.random() < 0.35)
     k = 1 if univ else force.get("k", rng.choice([1, 2, 2, 3]))
     o = _opts(rng, metric)
+    omit = bool(o) and rng.random() < 0.15
+    if omit:        # call without the option keywords: the documented defaults must apply
+        o = {nm: DEFAULTS[nm] for nm in o}
     sh = _short(metric)
     yt, yp, yb, ytr = _data(rng, metric, n, k, o.get("sp", 1))
+    if sh == "MAsym" and rng.random() < 0.6:
+        # plant errors exactly AT the threshold (the switch is `<`, not `<=`)
+        for j in range(k):
+            i = rng.randrange(n)
+            yp[j][i] = yt[j][i] - o["asymmetric_threshold"]
     hw = None
     if force.get("hw", rng.random() < 0.5):
         hw = _hw(rng, n, integer=sh in GM)
@@ -205,6 +224,8 @@ def _func_case(rng, metric, force=None):
     if ytr is not None:
         c["y_train"] = ytr
         c["scale"] = rng.choice([0.5, 3.0, 10.0, 2.0 ** -30, 1e-3])
+    if omit:
+        c["omit_opts"] = True
     c["tag"] = "gmean-horizon-weight" if (sh in GM and hw is not None and n > 1) else "plain"
     c["agg"] = STRUCT[sh][3] or "inner"
     # the equal-weights law is probed on every case except geometric means (known finding: there
@@ -215,7 +236,7 @@ def _func_case(rng, metric, force=None):
 
 def gen_cases(rng, tier):
     cases = []
-    per = 26 if tier == "quick" else 700
+    per = 32 if tier == "quick" else 700
     for metric in METRICS:
         sh = _short(metric)
         for _ in range(per):
@@ -259,6 +280,20 @@ def gen_cases(rng, tier):
                     d["proto"] = "bare"
                     cases.append(d)
             cases.append({"kind": "class_opts", "metric": metric, "cls": cls, "opts": o})
+        if names:
+            # default-constructed class against the function called with the documented defaults
+            o = {nm: DEFAULTS[nm] for nm in names}
+            n = rng.choice([2, 3, 4])
+            yt, yp, yb, ytr = _data(rng, metric, n, 2, 1)
+            c = {"kind": "class", "metric": metric, "cls": cls, "opts": o, "omit_ctor": True,
+                 "needs": extra or "none", "proto": "call", "mo": "uniform_average", "hw": None,
+                 "univariate": False, "container": "numpy", "y_true": yt, "y_pred": yp,
+                 "tag": "plain"}
+            if yb is not None:
+                c["y_bench"] = yb
+            if ytr is not None:
+                c["y_train"] = ytr
+            cases.append(c)
     return cases
 
 
@@ -297,9 +332,9 @@ def _kwargs(case, F, scale=1.0, container=None, swap=False, perfect=False, cols=
     o = case["opts"]
     for nm in ("symmetric", "square_root", "sp", "asymmetric_threshold", "left_error_function",
                "right_error_function"):
-        if nm in o:
+        if nm in o and not case.get("omit_opts"):
             kw[nm] = o[nm]
-    if "relative_loss_function" in o:
+    if "relative_loss_function" in o and not case.get("omit_opts"):
         kw["relative_loss_function"] = getattr(F, o["relative_loss_function"])
     if "y_bench" in case:
         kw["y_pred_benchmark"] = _arr(sel(case["y_bench"]), univ, cont, m) * scale
@@ -350,7 +385,7 @@ def run_impl(case):
     yt, yp, kw = _kwargs(case, F)
     if kind == "class":
         out = {"func": _try(f, yt, yp, **kw)}
-        ckw = {nm: kw[nm] for nm in case["opts"]}
+        ckw = {} if case.get("omit_ctor") else {nm: kw[nm] for nm in case["opts"]}
         extra = {nm: kw[nm] for nm in ("y_train", "y_pred_benchmark") if nm in kw}
         try:
             obj = getattr(M, case["cls"])(**ckw)
@@ -582,6 +617,14 @@ def _value_check(case, val, wit, perfect=False):
     return None
 
 
+def _class_has_witness(case):
+    """a class call returns only the aggregate over outputs: with a root (sqrt / geometric mean)
+    and several outputs there are no per-output values to check the root equation on (the same
+    configurations are covered by the function cases)."""
+    rooted = case["opts"].get("square_root") or _short(case["metric"]) in GM
+    return not rooted or len(case["y_true"]) == 1
+
+
 def oracle(case, out):
     kind = case["kind"]
     if kind == "class_opts":
@@ -614,9 +657,10 @@ def oracle(case, out):
         if co != fo:
             return "class-differs-from-function: %s returned %s, %s returned %s" % (
                 case["cls"], co, case["metric"], fo)
-        f = _value_check(dict(case, kind="func"), fo, fo)
-        if f and not case["opts"].get("square_root"):
-            return "value-differs-from-textbook-formula: " + f
+        if _class_has_witness(case):
+            f = _value_check(dict(case, kind="func"), fo, fo)
+            if f:
+                return "value-differs-from-textbook-formula: " + f
         return None
     # ---- function cases
     val = out["val"]
@@ -807,8 +851,8 @@ def coq_case(case, out):
     if case["kind"] == "class":
         if not _finite(out["cls"]) or not _finite(out["func"]):
             return None
-        if case["opts"].get("square_root") and not case["univariate"]:
-            return None     # no per-output witness for a class call (covered by function cases)
+        if not _class_has_witness(case):
+            return None
         return "mkcase %s %s %s" % (_cinputs(case), _cql(out["cls"]), _cql(out["cls"]))
     if not _finite(out["val"]) or not _finite(out.get("raw")):
         return None
